@@ -32,6 +32,9 @@ CLAIMED = {
  'C18': dict(design='4/C18', technique='TLA+ state machine JaqInPlace (one action per file-system call, Kill and Fail actions) model-checked exhaustively by TLC; strace logs of the real binary under every kill point and injected call failure validated action-by-action by TLC (Trace_InPlace), final file system compared with the specified state',
    text='Design: every interleaving of the replace protocol with a crash or a failing call at every step, for 1-3 files and all success/failure patterns, satisfies atomicity, only-after-success, ordering, clean termination and the permission window. Code: ~480 (quick) traced runs of the real binary - each scenario x SIGKILL before every n-th call of every file-system call type x error returns of open/write/stat/rename/chmod - are accepted by the specification event by event, and the bytes, modes and left-over files found afterwards equal the specified file system.',
    note='strace is the observation boundary (complete for file-system effects short of io_uring); kill = SIGKILL at syscall entry; no power-failure/fsync model'),
+ 'C17': dict(design='4/C17', technique='TLA+ state machine JaqCli (main loop, shared input cursor, writer, exit status) explored exhaustively by TLC with history invariants; every terminated behaviour of the state graph replayed on the real binary at process level; option tables (MC_CliIO with the TLA+ writer JaqCodec) replayed byte for byte',
+   text='TLC explores all interleavings of main-loop pulls and input/inputs pulls over two files of up to MaxItems items (values or unparsable text), all scripts of the effect vocabulary, with/without -n and -e, checking exactly-once in-order consumption, that only consumed well-formed values are written, and the exit status table; each of the ~11 000 terminated behaviours (plus stdin variants and stdout/stderr interleaving) is run on the real binary. Output option subsets and raw-input modes are enumerated by TLC with expected bytes from the TLA+ writer.',
+   note='filters restricted to the model`s effect scripts; --arg family, -f, colours not modelled; process-level observation only'),
 }
 
 checks = []
